@@ -622,6 +622,9 @@ impl Lowerer {
             sort: self.lower_sorts(transform_call.sort)?,
         };
         self.window = Some(window);
+        // verification hook: the window every column of this transform that needs one is handed
+        #[cfg(prqlc_verif)]
+        verif_op("window_set", serde_json::json!({"window": self.window}));
 
         match *transform_call.kind {
             pl::TransformKind::Derive { assigns, .. } => {
@@ -642,6 +645,8 @@ impl Lowerer {
             }
             pl::TransformKind::Aggregate { assigns, .. } => {
                 let window = self.window.take();
+                #[cfg(prqlc_verif)]
+                verif_op("window_take", serde_json::json!({"by": "aggregate"}));
 
                 let compute = self.declare_as_columns(*assigns, true)?;
 
@@ -659,6 +664,8 @@ impl Lowerer {
             }
             pl::TransformKind::Take { range, .. } => {
                 let window = self.window.take().unwrap_or_default();
+                #[cfg(prqlc_verif)]
+                verif_op("window_take", serde_json::json!({"by": "take"}));
                 let range = self.lower_range(range)?;
 
                 validate_take_range(&range, ast.span)?;
@@ -712,6 +719,8 @@ impl Lowerer {
             ),
         }
         self.window = None;
+        #[cfg(prqlc_verif)]
+        verif_op("window_reset", serde_json::json!({}));
 
         // result is stored in self.pipeline
         Ok(())
@@ -959,7 +968,7 @@ impl Lowerer {
         #[cfg(prqlc_verif)]
         verif_op(
             "declare",
-            serde_json::json!({"node": id, "how": "new", "compute": compute}),
+            serde_json::json!({"node": id, "how": "new", "compute": compute, "needs_window": needs_window}),
         );
 
         self.pipeline.push(Transform::Compute(compute));
